@@ -245,3 +245,108 @@ Qed.
 
 
 End Connect.
+
+(* ---- any sequence of well-formed messages on one connection ---- *)
+Section Pipeline.
+Variable PC : callees.
+Variable k : kind.
+Notation L := reference.
+
+(* how a sender framed the body: Content-Length with the body octets, or any chunk partition with extensions *)
+Inductive wframing :=
+| WLen (body : bytes)
+| WChunked (cs : list (bytes * bytes)) (e0 : bytes)
+| WTrailers (cs : list (bytes * bytes)) (e0 : bytes) (tblock : bytes) (tr : hdrs) (tv : bytes) (ns : list bytes) (h' : hdrs).
+    (* chunked with a trailer section [tblock] that Headers.parse reads as [tr]; [tv] is the Trailer field value, [ns] the names
+       it announces, [h'] the header fields after merging the announced trailer fields *)
+Record wmsg := { w_line : bytes; w_info : slinfo; w_block : bytes; w_hdrs : hdrs; w_fr : wframing }.
+
+Definition w_body (m : wmsg) : bytes :=
+  match w_fr m with WLen b => b | WChunked cs _ | WTrailers cs _ _ _ _ _ _ => concat_bytes (map fst cs) end.
+Definition w_wire (m : wmsg) : bytes :=
+  w_line m ++ CRLF ++ w_block m ++ CRLF ++ CRLF ++
+  match w_fr m with
+  | WLen b => b
+  | WChunked cs e0 => concat_bytes (map wchunk cs) ++ wlast e0 ++ CRLF
+  | WTrailers cs e0 tblock _ _ _ _ => concat_bytes (map wchunk cs) ++ wlast e0 ++ tblock ++ CRLF ++ CRLF
+  end.
+Definition w_delivered (m : wmsg) : msg :=
+  {| m_line := w_line m;
+     m_hdrs := match w_fr m with
+               | WLen _ => w_hdrs m
+               | WChunked _ _ => hdel K_TE (hset K_CL (dec_of_N (N.of_nat (List.length (w_body m)))) (w_hdrs m))
+               | WTrailers _ _ _ _ _ _ h' => hdel K_TE (hset K_CL (dec_of_N (N.of_nat (List.length (w_body m)))) h')
+               end;
+     m_body := w_body m |}.
+
+(* syntactic validity of one message, as the hypotheses of the single-message theorems *)
+Definition w_ok (m : wmsg) : Prop :=
+  cut CRLF (w_line m) = None /\ c_start PC (w_line m) = SlOk (w_info m) /\
+  w_block m <> [] /\ prefixb CRLF (w_block m) = false /\ cut (CRLF ++ CRLF) (w_block m ++ CRLF) = None /\
+  hparse [] (w_block m) = Some (w_hdrs m) /\
+  (match k with Server => p11 (w_info m) && negb (hmem K_HOST (w_hdrs m)) | Client => false end) = false /\
+  c_hdrs PC (p11 (w_info m)) (w_hdrs m) = HOk /\ connect_response PC k (w_line m) = false /\
+  hget K_CE (w_hdrs m) = None /\
+  (match k with Server => nobody (w_info m) && nonempty_b (w_body m) | Client => false end) = false /\
+  match w_fr m with
+  | WLen body =>
+      hget K_TE (w_hdrs m) = None /\ hget K_CL (w_hdrs m) = Some (dec_of_N (N.of_nat (List.length body))) /\
+      N.of_nat (List.length (dec_of_N (N.of_nat (List.length body)))) <= INT_MAX_STR_DIGITS
+  | WChunked cs e0 =>
+      p11 (w_info m) = true /\ hget K_TE (w_hdrs m) = Some CHUNKED /\ forallb chunk_ok cs = true /\ ext_ok e0 = true
+  | WTrailers cs e0 tblock tr tv ns h' =>
+      p11 (w_info m) = true /\ hget K_TE (w_hdrs m) = Some CHUNKED /\ forallb chunk_ok cs = true /\ ext_ok e0 = true /\
+      tblock <> [] /\ prefixb CRLF tblock = false /\ cut (CRLF ++ CRLF) (tblock ++ CRLF) = None /\ hparse [] tblock = Some tr /\
+      hget K_TRAILER (w_hdrs m) = Some tv /\ nonempty_b tv = true /\ c_trailer PC tv = TrOk ns /\
+      merge_trailers PC ns (w_hdrs m) tr = inl (h', [])   (* every trailer field was announced *)
+  end.
+
+Lemma w_first m rest : w_ok m ->
+  parse L PC k init (w_wire m ++ rest) =
+  let '(s2, m2, e) := parse L PC k init rest in (s2, w_delivered m :: m2, e).
+Proof.
+  intros (A1 & A2 & A3 & A4 & A5 & A6 & A7 & A8 & A9 & A10 & A11 & Hfr).
+  unfold w_wire, w_delivered, w_body in *. destruct (w_fr m) as [body | cs e0 | cs e0 tblock tr tv ns h'].
+  - destruct Hfr as (F1 & F2 & F3).
+    replace ((w_line m ++ CRLF ++ w_block m ++ CRLF ++ CRLF ++ body) ++ rest)
+      with (w_line m ++ CRLF ++ w_block m ++ CRLF ++ CRLF ++ body ++ rest) by (rewrite <- !app_assoc; reflexivity).
+    apply (content_length_message_exact PC k (w_line m) (w_info m) (w_block m) (w_hdrs m) body rest); assumption.
+  - destruct Hfr as (F0 & F1 & F2 & F3).
+    replace ((w_line m ++ CRLF ++ w_block m ++ CRLF ++ CRLF ++ concat_bytes (map wchunk cs) ++ wlast e0 ++ CRLF) ++ rest)
+      with (w_line m ++ CRLF ++ w_block m ++ CRLF ++ CRLF ++ (concat_bytes (map wchunk cs) ++ wlast e0 ++ CRLF ++ rest))
+      by (rewrite <- !app_assoc; reflexivity).
+    apply (chunked_message_exact PC k (w_line m) (w_info m) (w_block m) (w_hdrs m) cs e0 rest); try assumption.
+    rewrite F0 in A7. destruct k; [exact A7 | reflexivity].
+    rewrite <- F0. exact A8.
+  - destruct Hfr as (F0 & F1 & F2 & F3 & G1 & G2 & G3 & G4 & G5 & G6 & G7 & G8).
+    replace ((w_line m ++ CRLF ++ w_block m ++ CRLF ++ CRLF ++ concat_bytes (map wchunk cs) ++ wlast e0 ++ tblock ++ CRLF ++ CRLF) ++ rest)
+      with (w_line m ++ CRLF ++ w_block m ++ CRLF ++ CRLF ++ (concat_bytes (map wchunk cs) ++ wlast e0 ++ tblock ++ CRLF ++ CRLF ++ rest))
+      by (rewrite <- !app_assoc; reflexivity).
+    apply (chunked_message_trailers PC k (w_line m) (w_info m) (w_block m) (w_hdrs m) cs e0 tblock tr tv ns h' rest); try assumption.
+    rewrite F0 in A7. destruct k; [exact A7 | reflexivity].
+    rewrite <- F0. exact A8.
+Qed.
+
+(* C02, the sequence statement: the concatenation of any number of valid messages is delivered as exactly those
+   messages, in order, and the machine is idle with an empty buffer afterwards *)
+Theorem pipeline_delivered ms : Forall w_ok ms ->
+  parse L PC k init (concat_bytes (map w_wire ms)) = (init, map w_delivered ms, None).
+Proof.
+  induction ms as [|m ms IH]; intros H.
+  - reflexivity.
+  - inversion H as [|m' ms' Hm Hms]; subst. cbn [map concat_bytes].
+    rewrite (w_first m _ Hm), (IH Hms). reflexivity.
+Qed.
+
+(* ... followed by an arbitrary tail (an incomplete next message, garbage): the valid prefix is delivered first *)
+Theorem pipeline_then ms tail : Forall w_ok ms ->
+  parse L PC k init (concat_bytes (map w_wire ms) ++ tail) =
+  let '(s2, m2, e) := parse L PC k init tail in (s2, map w_delivered ms ++ m2, e).
+Proof.
+  induction ms as [|m ms IH]; intros H.
+  - cbn [map concat_bytes app]. destruct (parse L PC k init tail) as [[s2 m2] e]. reflexivity.
+  - inversion H as [|m' ms' Hm Hms]; subst. cbn [map concat_bytes]. rewrite <- app_assoc.
+    rewrite (w_first m _ Hm), (IH Hms). destruct (parse L PC k init tail) as [[s2 m2] e]. reflexivity.
+Qed.
+
+End Pipeline.
